@@ -27,7 +27,14 @@ RULE = ('case = one pool of 20-30 values built to collide: a small palette of at
         'members (equal value of another type, neighbour atom, permuted/dropped/retyped '
         'dict keys, permuted/added variable keys of an object, plain<->symbolic container, '
         'other class, longer/shorter list) and '
-        'equal-but-not-identical twins. pg.eq/ne/lt/gt are called on ALL ordered pairs '
+        'equal-but-not-identical twins (half of the twins of a container are a shallow or '
+        'deep clone of the earlier value). In a part of the pools: tuples of the classes '
+        'collections.namedtuple / typing.NamedTuple / a user subclass of tuple next to plain '
+        'tuples of the same items; values of user subclasses of pg.List / pg.Dict next to '
+        'pg.List / pg.Dict of the same items; leaf OBJECTS that are not == to themselves (up '
+        'to three float NaN objects, an object whose __eq__ is always False) shared by '
+        'reference between the values of the pool (top level, in containers, objects, numeric '
+        'tuples). pg.eq/ne/lt/gt are called on ALL ordered pairs '
         '(self pairs included), pg.hash on every value, ==/!=/hash() on every object whose '
         'class uses symbolic comparison, all triples are checked on the recorded results, '
         'and the pool is sorted with cmp_to_key(pg.lt). Non-trivial = at least 20 values, '
@@ -53,10 +60,23 @@ REQUIRED_COUNTERS = ['pools', 'eq_calls', 'lt_calls', 'hash_calls', 'pairs_eq_tr
                      'history_silent_steps', 'history_twin_checks',
                      'history_hash_agreement_checks', 'history_row_checks',
                      'pairs_eq_object_key_order', 'pairs_eq_object_key_order_nested',
-                     'history_twins_permuted', 'history_op:Object.rebind[remove+readd]']
+                     'history_twins_permuted', 'history_op:Object.rebind[remove+readd]',
+                     'pairs_eq_shared-nan-leaf', 'pairs_eq_tuple-subclass',
+                     'pairs_eq_container-subclass', 'values_reached_by_clone']
 ASSUMPTIONS = [
-    'NaN is not generated (don\'t-care); tuples hold primitives of one mutually comparable '
-    'family per pool (numbers or strings), as the quantifier says',
+    'tuples hold primitives of one mutually comparable family per pool (numbers or strings), '
+    'as the quantifier says; their concrete class (tuple, named tuples, a user subclass) is '
+    'free, like the concrete class of a symbolic list / dict (pg.List / pg.Dict or a user '
+    'subclass): pg.eq and pg.lt document item-wise comparison for every list/tuple/dict',
+    'NaN (and an object of a non-symbolic class whose __eq__ is always False) is not a member '
+    'of the strict total ORDER the property speaks of (pg.lt documents `<` for floats, IEEE: '
+    'unordered; pg.eq documents comparison by reference for plain objects): a pair whose '
+    'comparison has to compare such a leaf with any OTHER object (walking aligned list/tuple '
+    'positions, common dict keys, common object fields) is a don\'t-care for twin equality, '
+    'trichotomy, type rank, first difference, transitivity and the sorted order. Reflexivity '
+    'is stated for every value: where such a leaf only ever meets ITSELF (x vs x, two '
+    'containers / a value and its clone sharing the leaf object) every law is judged; and '
+    'on EVERY pair: ne == not eq, eq symmetric, gt == swapped lt, eq => equal hash, no raise',
     'pg.hash of a plain (non-symbolic) list/dict falls back to hash() and raises by '
     'documentation; such values are hashed through pg.List/pg.Dict built from a deep copy',
     'MISSING_VALUE appears at top level and inside plain containers only (symbolic '
@@ -178,6 +198,7 @@ class MD(pg.Dict):
 
 
 SUBCONT = {'ML': ML, 'MD': MD}
+SUBCONT_TYPES = (ML, MD)
 
 P1 = collections.namedtuple('P1', 'x')
 P2 = collections.namedtuple('P2', 'x y')
@@ -336,21 +357,42 @@ def depth_of(d):
   return 0
 
 
-def normalize(d):
-  """The description with every container / tuple of the base class and every
-  shared leaf replaced by an ordinary atom (one per leaf object)."""
+def normalize(d, aspects):
+  """The description without the given aspects (names of SPECIAL): containers /
+  tuples of the base class, the shared leaves of a kind replaced by ordinary
+  atoms (one per leaf object)."""
   k = d[0]
+
+  def leaf(x):
+    if f'shared-{LEAF_KINDS[x[1]]}-leaf' in aspects:
+      return ['v', LEAF_SUBST[x[1]]]
+    return x
   if k == 'h':
-    return ['v', LEAF_SUBST[d[1]]]
+    return leaf(d)
   if k == 't':
-    return ['t', [LEAF_SUBST[x[1]] if isinstance(x, list) else x for x in d[1]]]
+    items = [(leaf(x) if isinstance(x, list) else x) for x in d[1]]
+    items = [x[1] if isinstance(x, list) and x[0] == 'v' else x for x in items]
+    return ['t', items] + ([] if 'tuple-subclass' in aspects else d[2:])
   if k in 'lL':
-    return [k, [normalize(x) for x in d[1]]]
+    return [k, [normalize(x, aspects) for x in d[1]]] + (
+        [] if 'container-subclass' in aspects else d[2:])
   if k in 'dD':
-    return [k, [[kk, normalize(x)] for kk, x in d[1]]]
+    return [k, [[kk, normalize(x, aspects)] for kk, x in d[1]]] + (
+        [] if 'container-subclass' in aspects else d[2:])
   if k == 'O':
-    return ['O', d[1], [[f, normalize(x)] for f, x in d[2]]]
+    return ['O', d[1], [[f, normalize(x, aspects)] for f, x in d[2]]]
   return d
+
+
+def has_subcont(d):
+  k = d[0]
+  if k in 'lL':
+    return len(d) > 2 or any(has_subcont(x) for x in d[1])
+  if k in 'dD':
+    return len(d) > 2 or any(has_subcont(x) for _, x in d[1])
+  if k == 'O':
+    return any(has_subcont(x) for _, x in d[2])
+  return False
 
 
 class Palette:
@@ -642,10 +684,9 @@ def flags(a, b, out):
       out.add('tuple-subclass')
     for x, y in zip(a, b):
       flags(x, y, out)
-  if (isinstance(a, pg.Symbolic) and isinstance(b, pg.Symbolic) and type(a) is not type(b)
-      and (isinstance(a, list) and isinstance(b, list)
-           or isinstance(a, dict) and isinstance(b, dict))):
-    out.add('container-subclass')
+  if ((isinstance(a, list) and isinstance(b, list) or isinstance(a, dict) and isinstance(b, dict))
+      and type(a) is not type(b) and (type(a) in SUBCONT_TYPES or type(b) in SUBCONT_TYPES)):
+    out.add('container-subclass')       # one is of a user subclass of pg.List / pg.Dict
   if isinstance(a, dict) and isinstance(b, dict):
     ka, kb = list(a.keys()), list(b.keys())
     if ka != kb:
@@ -785,6 +826,9 @@ class Pool:
     if key not in self._flags:
       out = set()
       flags(self.vals[i], self.vals[j], out)
+      if has_subcont(self.descs[i]) or has_subcont(self.descs[j]):
+        # somewhere in the pair (a copy of such a value is a pg.List / pg.Dict)
+        out.add('container-subclass')
       self._flags[key] = out
     return self._flags[key]
 
@@ -800,9 +844,10 @@ class Pool:
       # classes and ordinary atoms in place of the shared leaves? If not, these
       # decide.
       da, db = self.descs[idx[0]], self.descs[idx[1]]
-      x, y = build(normalize(da)), build(normalize(db))
-      if clause not in pair_clauses(x, y, twin=da == db):
-        return '+'.join(special)
+      for asp in [[x] for x in special] + ([special] if len(special) > 1 else []):
+        x, y = build(normalize(da, asp)), build(normalize(db, asp))
+        if clause not in pair_clauses(x, y, twin=da == db):
+          return '+'.join(asp)
     if raising:
       for name in RAISE_PREF:
         if name in fl:
@@ -1197,8 +1242,11 @@ def twin_laws(n, t, c, full=True):
       out.append(('op-eq-disagrees', f'(live == fresh) gave {oe!r}, pg.eq={e1}'))
     if isinstance(on, Raised) or bool(on) != (not e1):
       out.append(('op-ne-disagrees', f'(live != fresh) gave {on!r}, pg.ne={not e1}'))
-    if e1 is True and not isinstance(ht, Raised) and (isinstance(oh, Raised) or oh != ht):
-      out.append(('op-hash-disagrees', f'hash(live)={oh!r}, pg.hash(fresh)={ht!r}'))
+    # (pg.hash(live) != pg.hash(fresh) is reported above as eq-hash-differ)
+    hx = ht if isinstance(hn, Raised) else hn
+    if e1 is True and not isinstance(hx, Raised) and (isinstance(oh, Raised) or oh != hx):
+      out.append(('op-hash-disagrees', f'hash(live)={oh!r}, pg.hash(live)={hn!r}, '
+                  f'pg.hash(fresh)={ht!r}'))
   return out
 
 
@@ -1237,7 +1285,14 @@ def run_histories(ctx, P, pal):
             continue
           seen_clauses.add(clause)
           m = mech
-          if permuted:
+          if clause == 'eq-hash-differ':
+            fl = set()
+            flags(n, t, fl)
+            if 'container-subclass' in fl:
+              # (a clone of a value of a user subclass of pg.List / pg.Dict is a
+              # pg.List / pg.Dict: the live value may be one)
+              m = 'container-subclass'
+          if permuted and m is mech:
             # Does the same law fail against a twin that stores its keys in the
             # order of the live value? If not, the stored order decides.
             if same_order[0] is None:
